@@ -224,3 +224,29 @@ Proof.
   split; [vm_compute; reflexivity|].
   repeat split; vm_compute; congruence.
 Qed.
+
+(* imager_locate_pixel tied to the transform model of C04: feed the state's meshes and the UNIT POINT MASS at a
+   point (x, y) of the covered region (its CDF, continuous from the left, passed as a callable kernel) to
+   _transform: pixel (locate bpnts x, locate ppnts y) receives the weight of the point and every other pixel 0.
+   So `locate` IS the pixel a point mass falls into, with the half-open convention [node_i, node_{i+1}). *)
+Theorem point_mass_lands_in_located_pixel : forall (s : state QNum) Phi Kgauss w (x y : Q) (i j : nat), Inv s ->
+  blo s <= x -> x < bhi s -> plo s <= y -> y < phi s ->
+  (Z.of_nat i < resw s)%Z -> (Z.of_nat j < resh s)%Z ->
+  nth j (nth i (ImageM.transform_one Phi Kgauss false w
+                  (ImageM.OtherKernel (fun mb mp u v => (if Rlt_dec mb u then 1 else 0) * (if Rlt_dec mp v then 1 else 0))%R)
+                  (map Q2R (bpnts s)) (map Q2R (ppnts s)) [(Q2R x, Q2R y)]) []) 0%R
+  = if ((Z.of_nat i =? locate QNum (bpnts s) x)%Z && (Z.of_nat j =? locate QNum (ppnts s) y)%Z)%bool
+    then w (Q2R x) (Q2R y) else 0%R.
+Proof. exact ImageGlueP.point_mass_on_state. Qed.
+Print Assumptions point_mass_lands_in_located_pixel.
+
+(* non-vacuity: on the constructor's state (0,1) x (0,1), ps = 3/10 (4 x 4 pixels, region [-1/10, 11/10]^2)
+   the point (1/2, 9/10) is located in pixel (2, 3) *)
+Example point_mass_lands_in_located_pixel_hyp_satisfiable :
+  let s := ctor QNum 0 1 0 1 (3 # 10) in
+  Inv s /\ blo s <= 1 # 2 /\ 1 # 2 < bhi s /\ plo s <= 9 # 10 /\ 9 # 10 < phi s /\
+  (locate QNum (bpnts s) (1 # 2), locate QNum (ppnts s) (9 # 10)) = (2, 3)%Z /\ (resw s, resh s) = (4, 4)%Z.
+Proof.
+  cbv zeta. split; [apply ctor_inv; unfold Qlt, Qle; cbn; lia|].
+  repeat split; vm_compute; congruence.
+Qed.
